@@ -25,6 +25,7 @@ type zzOpts struct {
 	compare func(b []byte, p, q Pack, name string)
 	// mkEmpty: receiver of Read for unregistered packs when it differs from mk()
 	mkEmpty func(p Pack) Pack
+
 }
 
 // zzPackRoundTrip: a pack populated with arbitrary field values survives type-tagged
